@@ -538,7 +538,7 @@ def c08():
 def c10():
     qs = stats_queries('db', 'base') + [q for q in fault_queries('db', 'base') if q.entry.startswith('r')]
     # OLC index after a concurrent phase (statistics-enabled build of the C03 scenarios that grow / shrink nodes): conservation law of the counters, leaf count
-    qs += olc_queries('C10', config='base', only={'g_ins5_rem1', 'g_get3_ins5', 'g_ins5_ins5', 's_get2_rem5', 's_rem1_rem5', 's_rem3_rem3', 'n_ins4_ins400'})
+    qs += olc_queries('C10', config='base', only={'p_split_ins', 'p_split_rem', 'p_rem_split', 'p_ins_split_child', 'l_ins_ins_split', 'g_ins5_rem1', 'g_get3_ins5', 'g_ins5_ins5', 's_get2_rem5', 's_rem1_rem5', 's_rem3_rem3', 'n_ins4_ins400'})
     return Check('C10', 'model_checking', qs,
                  assumptions=['reference shape = number of inner nodes per fan-out class of the path-compressed radix tree, computed in the harness from the sorted key list (adjacent common-prefix lengths), '
                               'node sizes from the type layout (sizeof), independent of the tree code',
@@ -596,6 +596,8 @@ OLC_SCEN = {  # scenario -> (max preemption index explored = atomic accesses of 
     'p_ins_split_child': (80, 'insert into an inner node below the root whose key prefix is split (cut in place) between the read of the parent slot and the lock of the node'),
     'p_get_split_child': (45, 'reader of a leaf under an inner node below the root while its key prefix is split'),
     'p_rem_split_child': (80, 'remove under an inner node below the root while its key prefix is split'),
+    'p_split_ins': (80, 'insert that splits the key prefix of the root node, restarted because another insert adds a child to that node'),
+    'p_split_rem': (80, 'insert that splits the key prefix of the root node while a remove collapses that node'),
     'c_get_k1_rem_k0': (45, 'reader inside the inner node onto which a two-child root collapses'),
     'c_get_k2_rem_k0': (45, 'reader inside the inner node onto which a two-child root collapses (other leaf)'),
     'c_get_k0_rem_k1': (45, 'reader of the sibling leaf while the inner two-child node collapses onto a leaf'),
@@ -621,7 +623,7 @@ OLC_SCEN = {  # scenario -> (max preemption index explored = atomic accesses of 
     'n_get2_ins400': (60, 'reader three levels deep while an inner node on its path is replaced by a larger one'),
     'n_rem3_ins400': (100, 'remove three levels deep while the parent of its node is replaced'),
 }
-OLC_QUICK = {'C03': {'p_ins_split_child', 'c_get_k1_rem_k0', 'g_ins5_rem1', 'g_ins5_ins5', 'l_get_rem', 's_get2_rem5', 'p_rem_split'}, 'C04': {'c_get_k1_rem_k0', 'l_get_rem', 's_get2_rem5'}, 'C14': {'g_ins5_rem1', 'n_ins4_ins400', 'l_rem_ins'}, 'C10': {'g_ins5_rem1'}}
+OLC_QUICK = {'C03': {'p_ins_split_child', 'c_get_k1_rem_k0', 'g_ins5_rem1', 'g_ins5_ins5', 'l_get_rem', 's_get2_rem5', 'p_rem_split'}, 'C04': {'c_get_k1_rem_k0', 'l_get_rem', 's_get2_rem5'}, 'C14': {'g_ins5_rem1', 'n_ins4_ins400', 'l_rem_ins'}, 'C10': {'g_ins5_rem1', 'p_split_ins'}}
 OLC_KNOWN = {}    # (scenario, k) -> known finding id; filled from known_findings.txt ids below
 
 
@@ -705,9 +707,11 @@ QSBR_SCEN = {  # scenario -> (max preemption index, what)
     'q_resume_vs_q': (40, 'a resume (re-registration) preempted by quiescent states of the others'),
     'q_resume_vs_retire': (40, 'a resume preempted by a retire and quiescent states'),
     'q_q_vs_pause': (60, 'a quiescent state preempted by a departure with pending requests'),
+    'q_leave_cas_retry': (60, 'a leaver that advances the epoch whose state-word CAS fails because an already-quiesced thread leaves in the window; an orphaned current-interval request must be aged once, not twice'),
+    'q_leave_cas_retry4': (60, 'same with four threads (the thread leaving in the window is not the retirer)'),
     'q_q_vs_resume': (60, 'a quiescent state preempted by a resume and a retire'),
 }
-QSBR_QUICK = {'q_2retire_new_epoch', 'q_leave_orphan', 'q_pause_vs_pause', 'q_epoch_vs_2pause_prev', 'q_pause_vs_retire', 'q_resume_vs_q', 'q_q_vs_pause'}
+QSBR_QUICK = {'q_leave_cas_retry', 'q_2retire_new_epoch', 'q_leave_orphan', 'q_pause_vs_pause', 'q_epoch_vs_2pause_prev', 'q_pause_vs_retire', 'q_resume_vs_q', 'q_q_vs_pause'}
 
 
 def qsbr_wrappers():
